@@ -87,11 +87,17 @@ func (e *env) seqCases(thorough bool) []seqCase {
 				vals := f.Dom[1:]
 				if !thorough && len(vals) > 1 {
 					vals = vals[:1]
+					// the empty string is a value of its own for defaulting logic
+					for _, x := range f.Dom[2:] {
+						if s, ok := x.(string); ok && s == "" {
+							vals = append(vals, x)
+						}
+					}
 				}
-				for vi, y := range vals {
+				for _, y := range vals {
 					for si := range schedules {
 						out = append(out, seqCase{
-							ID:   fmt.Sprintf("seq|%s|%s|%s|%d|%s", e.bases[bi].Name, t.Name, f.Name, vi+1, schedules[si].Name),
+							ID:   fmt.Sprintf("seq|%s|%s|%s|%s|%s", e.bases[bi].Name, t.Name, f.Name, show(y), schedules[si].Name),
 							Base: bi, T: t, Field: f.Name, B: map[string]interface{}{f.Name: y}, Sched: si,
 						})
 					}
@@ -125,6 +131,7 @@ func (e *env) runSeq(c seqCase) (twoKeys bool, bObserved int) {
 	// I1 over all records
 	checkRecords := func() bool {
 		recs := e.records(ctx)
+		e.checkStoredBodies(recs, c.T.Name+" in schedule "+sched.Name)
 		var keys []string
 		for k := range recs {
 			keys = append(keys, k)
@@ -165,6 +172,7 @@ func (e *env) runSeq(c seqCase) (twoKeys bool, bObserved int) {
 				ov = c.B
 			}
 			msg := e.build(c.T, ov, v)
+			k := string(attKey(msg)) // before delivery: a handler may modify the message object
 			res := w.DeliverTx(ctx, []*world.Actor{v.Actor}, msg)
 			if res.Stage == "build" {
 				panic(fmt.Sprintf("harness: vote tx: %v", res.Err))
@@ -173,7 +181,6 @@ func (e *env) runSeq(c seqCase) (twoKeys bool, bObserved int) {
 			if !res.OK() {
 				continue
 			}
-			k := string(attKey(msg))
 			if ghost[k] == nil {
 				ghost[k] = map[string]bool{}
 			}
